@@ -106,6 +106,7 @@ ErrClass(e) == IF Ok(e) THEN "ok" ELSE e.res
 \* evaluated on EVERY step, whatever the event (state invariants)
 StateMonitors(e, s2, hv2) ==
   /\ Check(ExclusiveReservation(s2, hv2), "C03", "ExclusiveReservation", e, "")
+  /\ Check(OneLiveEntryPerSlate(s2), "C03", "OneLiveEntryPerSlate", e, "")
   /\ Check(\A w \in DOMAIN s2.w : \A k \in DOMAIN s2.w[w].outs : s2.w[w].outs[k].v >= 0, "C01", "NonNegative", e, "")
 \* code under test must never panic in these operations
 NoPanic(e) == Check(e.res # "panic", "C06", "NoPanic", e, IF Has(e, "detail") THEN e.detail ELSE "")
@@ -200,6 +201,10 @@ TReceive ==
          hv2 == IF Ok(e) THEN HvAfterReceive(st, S2, hv, w, e.sl) ELSE hv IN
      /\ Check(ReplayNoEffect(st, S2, hv, w, "receive", e.sl, e.res), "C03", "ReplayNoEffect", e, "receive")
      /\ Check(ForeignOnlyAdds(st, S2, w, ""), "C07", "ForeignOnlyAdds", e, "receive")
+     \* a second delivery of a slate to an account that holds a (not cancelled) receive entry for it
+     \* is refused without effect - however long ago the first one was, confirmed or not
+     /\ (\E t \in TxBySlate(st, w, e.sl, {acct}) : st.w[w].txs[t].ty = "TxReceived") =>
+          Check(~Ok(e) /\ S2.w[w] = st.w[w], "C07", "SecondDeliveryRefused", e, "")
      /\ Ok(e) => /\ Check(ReceiveExactlyOnce(st, S2, w, e.sl, e.amt, acct), "C07", "ReceiveExactlyOnce", e, "")
                  /\ Check(e.ret.own_only, "C07", "ReplyOwnDataOnly", e, "")
                  /\ Check(\A k \in (DOMAIN S2.w[w].outs) \ (DOMAIN st.w[w].outs) : PathFresh(hv, w, k),
